@@ -112,10 +112,10 @@ def rule_r2(ctx, rid="C19.R2"):
             pops = [m for m in g.nodes if m.kind == "stmt" and m.ast is not None and (any(isinstance(c, ast.Call) and dotted(c.func) == "self.requests.pop" for c in ast.walk(m.ast))
                                                                                     or (isinstance(m.ast, ast.Delete) and any(isinstance(t, ast.Subscript) and dotted(t.value) == "self.requests" for t in m.ast.targets)))]
             owner_tests = [b for (_t, pol, b) in g.guards(n) if mentions(b.ast, "self.requests")]
-            if not pops or not owner_tests:
-                raise AnalysisError("anchor vanished: the removal of the finished request / the ownership test in service()")
-            src = owner_tests[0]
-            fwd = g.reach(src, follow_exc=False)
+            if not pops:
+                raise AnalysisError("anchor vanished: the removal of the finished request in service()")
+            src = owner_tests[0] if owner_tests else None  # without an ownership test the guard itself is reported below
+            fwd = g.reach(src, follow_exc=False) if src is not None else set()
             gap = None
             for pnode in pops:
                 if pnode.id not in fwd:
@@ -124,7 +124,9 @@ def rule_r2(ctx, rid="C19.R2"):
                     if m.id in fwd and m is not src and m is not pnode and pnode.id in g.reach(m, follow_exc=False) and g.path(src, m, avoid=[pnode], follow_exc=False) is not None \
                             and m.ast is not None and REQ_LOCK not in lk.held_at(f, m):
                         gap = m
-            if gap is None:
+            if src is None:
+                pass
+            elif gap is None:
                 ctx.r.ok(rid, "the ownership test of the worker-side sender and the removal of the finished request are one requests-lock region", f.loc(n.ast))
             else:
                 ctx.r.violation(rid, key_of(f, None, "continue-test-pop-not-atomic"), "the requests lock is not held from the worker's test `%s` to the removal of its request (released at line %s): the I/O thread can parse an expecting head in between, finds a request still queued and sends nothing - and the worker has already tested: nobody sends the interim response" % (norm(src.ast)[:60], getattr(gap.ast, "lineno", "?")), f.loc(n.ast))
